@@ -34,7 +34,7 @@ func (fr *Frame) call(in *ssa.Call) *GVal {
 		if ex.p.isSpecFunc(callee) {
 			return fr.specCall(callee, args, rt)
 		}
-		c := ex.p.cs.Funcs[name]
+		c := ex.p.contractFor(ex.fname, name)
 		if c != nil && !c.Inline {
 			return fr.contractCall(in, callee, c, args)
 		}
@@ -574,7 +574,7 @@ func (fr *Frame) dynamicCall(in *ssa.Call) *GVal {
 		name := funcDisplayName(f)
 		id := ex.p.w.FuncID(name)
 		isOne = append(isOne, Eq(fv, id))
-		c := ex.p.cs.Funcs[name]
+		c := ex.p.contractFor(ex.fname, name)
 		if c == nil {
 			// no contract: nothing known about this arm
 			fr.oblige("requires", "dyncall/"+name+"/has-contract", safetyProps, Not(Eq(fv, id)), in.Pos())
